@@ -223,7 +223,7 @@ def run_C08(ctx):
         ctx.tlc_phase("concat-pairs-deep-simulate", "Session", consts, invariants=["Refines", "Closed"],
                       simulate="num=100000", depth=12, view=None, timeout=2400)
     ctx.chain_phase("chains-code-to-spec", (4000 if ctx.quick() else 60000), 5, ops={"concatself", "same"})
-    ctx.pychain_phase("python-chains-code-to-spec", (4000 if ctx.quick() else 60000), 5, ops={"concat0", "concat1", "concat2", "concatperm", "same", "maysame"})
+    ctx.pychain_phase("python-chains-code-to-spec", (4000 if ctx.quick() else 60000), 5, ops={"concat0", "concat1", "concat2", "concat3", "concatperm", "same", "maysame"})
     return ctx.finish(assumptions=["ak.concatenate(axis=0) is replayed as its C++ call sequence mergeable/mergemany/merge_as_union/simplify_uniontype",
                                    "leaf values are small integers representable in every dtype used"])
 
